@@ -311,7 +311,7 @@ def regen_constants():
 class C09(Property):
     id = "C09"
     title = "HTTP router dispatches every request to the right route with the right variables"
-    quick_cases = 600
+    quick_cases = 520
     thorough_cases = 8000
     design_ref = "DESIGN.md §6/C09"
     level_text = ("Unbounded Rocq theorems. Router (every list of Handle calls, every request method and path): the per-method "
@@ -402,21 +402,6 @@ class C09(Property):
              "regs": [[m, "/r/:id"] for m in ALL_METHODS] + [["TRACE", "/r/:id"], ["CONNECT", "/r"], ["GET", "/g"], ["HEAD", "/h"]],
              "reqs": [[m, "/r/1"] for m in ALL_METHODS + ["TRACE", "CONNECT", "get", "PROPFIND", ""]]
                      + [["HEAD", "/g"], ["GET", "/h"], ["OPTIONS", "/g"], ["OPTIONS", "*", "raw"], ["OPTIONS", "*"]]},
-            # what the server makes of unusual request targets (raw = parsed by net/http like a real request line)
-            {"nf": False, "na": False,
-             "regs": [["GET", "/a/:x/c"], ["GET", "/a/b"], ["GET", "/é/:名"], ["POST", "/a b/:x"], ["GET", "/%2F/:x"], ["GET", "/:x/:y/:z/:w"],
-                      ["PUT", "/a:b/:"], ["GET", "/*"], ["GET", "/" + "/".join(["s%d" % i for i in range(300)]) + "/:last"],
-                      ["GET", "/" + "L" * 5000]],
-             "reqs": [["GET", "/a/x%2Fy/c", "raw"], ["GET", "/a/%62", "raw"], ["GET", "/a/b?x=/c/d", "raw"], ["GET", "/a/b#f", "raw"],
-                      ["GET", "/a/%2e%2e/a/b", "raw"], ["GET", "/a/./b/", "raw"], ["GET", "//a//b//", "raw"], ["GET", "/a/../../a/b", "raw"],
-                      ["GET", "/%C3%A9/v%C3%A4rde", "raw"], ["GET", "/é/värde"], ["GET", "/é/日本"], ["POST", "/a%20b/1", "raw"], ["POST", "/a b/1"],
-                      ["GET", "/%252F/1", "raw"], ["GET", "/%2F/1", "raw"], ["GET", "/%2F/1"], ["GET", "http://other.host/a/b", "raw"],
-                      ["GET", "/a/b/c/d"], ["GET", "/a/b/c/d/e"], ["PUT", "/a:b/1"], ["PUT", "/a:b/"], ["GET", "/*"], ["GET", "/x"],
-                      ["GET", "/" + "/".join(["s%d" % i for i in range(300)]) + "/end"],
-                      ["GET", "/" + "/".join(["s%d" % i for i in range(299)]) + "/x/end"],
-                      ["GET", "/" + "L" * 5000], ["GET", "/" + "L" * 4999], ["GET", "/a/" + "v" * 20000 + "/c"],
-                      ["GET", "/" + "../" * 400 + "a/b"], ["GET", "/" + "z/" * 400 + "../" * 400 + "a/b", "raw"],
-                      ["GET", "/a/:x/c"], ["GET", "/a/%3Ax/c", "raw"], ["GET", "/a//c"], ["GET", "/a/ /c"]]},
             # the variables of a request stay its own: concurrent requests on variable routes, reads after later requests
             {"nf": False, "na": False, "regs": [["GET", "/a/:x"], ["GET", "/b/:y/:z"], ["POST", "/a/:x"], ["GET", "/c"]],
              "reqs": [["GET", "/a/1", "path", "c1"], ["GET", "/b/2/3", "path", "c1"], ["POST", "/a/4", "path", "c1"], ["GET", "/c", "path", "c1"],
@@ -796,8 +781,26 @@ class C09(Property):
             cases.insert((i + 1) * len(cases) // (len(fixed) + 1), c)
         return cases
 
+    def _heavy_case(self):
+        """unusual request targets, a 300-segment pattern, 5000- and 20000-byte segments: the most expensive fixed case,
+        kept out of corpus() so that it does not share a Coq shard with all the other corpus cases"""
+        return {"nf": False, "na": False,
+             "regs": [["GET", "/a/:x/c"], ["GET", "/a/b"], ["GET", "/é/:名"], ["POST", "/a b/:x"], ["GET", "/%2F/:x"], ["GET", "/:x/:y/:z/:w"],
+                      ["PUT", "/a:b/:"], ["GET", "/*"], ["GET", "/" + "/".join(["s%d" % i for i in range(300)]) + "/:last"],
+                      ["GET", "/" + "L" * 5000]],
+             "reqs": [["GET", "/a/x%2Fy/c", "raw"], ["GET", "/a/%62", "raw"], ["GET", "/a/b?x=/c/d", "raw"], ["GET", "/a/b#f", "raw"],
+                      ["GET", "/a/%2e%2e/a/b", "raw"], ["GET", "/a/./b/", "raw"], ["GET", "//a//b//", "raw"], ["GET", "/a/../../a/b", "raw"],
+                      ["GET", "/%C3%A9/v%C3%A4rde", "raw"], ["GET", "/é/värde"], ["GET", "/é/日本"], ["POST", "/a%20b/1", "raw"], ["POST", "/a b/1"],
+                      ["GET", "/%252F/1", "raw"], ["GET", "/%2F/1", "raw"], ["GET", "/%2F/1"], ["GET", "http://other.host/a/b", "raw"],
+                      ["GET", "/a/b/c/d"], ["GET", "/a/b/c/d/e"], ["PUT", "/a:b/1"], ["PUT", "/a:b/"], ["GET", "/*"], ["GET", "/x"],
+                      ["GET", "/" + "/".join(["s%d" % i for i in range(300)]) + "/end"],
+                      ["GET", "/" + "/".join(["s%d" % i for i in range(299)]) + "/x/end"],
+                      ["GET", "/" + "L" * 5000], ["GET", "/" + "L" * 4999], ["GET", "/a/" + "v" * 20000 + "/c"],
+                      ["GET", "/" + "../" * 400 + "a/b"], ["GET", "/" + "z/" * 400 + "../" * 400 + "a/b", "raw"],
+                      ["GET", "/a/:x/c"], ["GET", "/a/%3Ax/c", "raw"], ["GET", "/a//c"], ["GET", "/a/ /c"]]}
+
     def _fixed_families(self):
-        return self._spelling_cases() + self._cleaning_cases()
+        return [self._heavy_case()] + self._spelling_cases() + self._cleaning_cases()
 
     # ---- deterministic families for the other seeded classes (each seed of seeded/C09-* is caught by one of them,
     # whatever VERIF_SEED is) -------------------------------------------------------------------------------------
